@@ -108,6 +108,9 @@ namespace adept {
 #ifdef ADEPT_RECORDING_PAUSABLE
       if (ADEPT_ACTIVE_STACK->is_recording()) {
 #endif
+#ifndef ADEPT_MANUAL_MEMORY_ALLOCATION
+	ADEPT_ACTIVE_STACK->check_space(1);
+#endif
 	ADEPT_ACTIVE_STACK->push_rhs(1.0,gradient_index);
 	ADEPT_ACTIVE_STACK->push_lhs(gradient_index_);
 #ifdef ADEPT_RECORDING_PAUSABLE
